@@ -86,15 +86,15 @@ class UbxCfgGnss(UbxCfgGnss_):
     def enable_gnss(self, system):
         assert 0 <= system <= UbxCfgGnss.GNSS_IRNSS
         pos = self._find_entry(system)
-        if pos:
-            field = f'flags_{system}'
+        if pos is not None:
+            field = f'flags_{pos}'
             self.f._fields[field].enable()
 
     def disable_gnss(self, system):
         assert 0 <= system <= UbxCfgGnss.GNSS_IRNSS
         pos = self._find_entry(system)
-        if pos:
-            field = f'flags_{system}'
+        if pos is not None:
+            field = f'flags_{pos}'
             self.f._fields[field].disable()
 
     def _find_entry(self, system):
